@@ -12,7 +12,8 @@ Lemma census_equals_audit_l :
   constcast_residue = map (fun a => fst (fst a)) constcast_audit /\
   static_residue = map (fun a => fst (fst a)) static_audit /\
   census_localstatic = map (fun a => fst (fst a)) localstatic_audit /\
-  census_owner = map facility_home all_facilities.
+  census_owner = map facility_home all_facilities /\
+  census_constlookup = map (fun a => fst (fst a)) constlookup_audit.
 Proof. vm_compute. repeat split; reflexivity. Qed.
 
 Lemma audit_check_true : audit_check = true.
@@ -79,31 +80,37 @@ Proof.
     destruct F as [F|F]; [left; apply verdict_ok_neq; exact F | right; apply str_in_In; exact F].
 Qed.
 
-(* the only const_cast site whose audit verdict is SharedWrite *)
-Lemma constcast_shared_write_unique : forall k v j, In (k, v, j) constcast_audit -> v = SharedWrite ->
-  cast_fn k = "XalanList::getListHead const".
+Lemma constcast_no_shared_write : forall k v j, In (k, v, j) constcast_audit -> v <> SharedWrite.
 Proof.
-  intros k v j Hin Hv.
-  assert (F : forallb (fun a => match snd (fst a) with SharedWrite => String.eqb (cast_fn (fst (fst a))) "XalanList::getListHead const" | _ => true end) constcast_audit = true)
-    by (vm_compute; reflexivity).
-  rewrite forallb_forall in F. specialize (F _ Hin). cbn in F. subst v. apply String.eqb_eq in F. exact F.
+  intros k v j Hin. apply verdict_ok_neq.
+  assert (F : forallb (fun a => verdict_ok (snd (fst a))) constcast_audit = true) by (vm_compute; reflexivity).
+  rewrite forallb_forall in F. apply (F _ Hin).
 Qed.
 
-Lemma no_shared_write_refuted_l :
-  exists e j, In e census_constcast /\ In (e, SharedWrite, j) constcast_audit.
+Lemma constlookup_allowlisted : forall e, In e census_constlookup -> exists v j, In (e, v, j) constlookup_audit /\ v <> SharedWrite.
 Proof.
-  assert (F : existsb (fun a => match snd (fst a) with SharedWrite => existsb (cast_eqb (fst (fst a))) census_constcast | _ => false end) constcast_audit = true)
+  intros e H. destruct census_equals_audit_l as [_ [_ [_ [_ [_ E]]]]]. rewrite E in H. apply in_map_iff in H.
+  destruct H as [[[k v] j] [Hk Hin]]. cbn in Hk. subst k. exists v, j. split; [exact Hin|].
+  apply verdict_ok_neq.
+  assert (F : forallb (fun a => verdict_ok (snd (fst a))) constlookup_audit = true) by (vm_compute; reflexivity).
+  rewrite forallb_forall in F. apply (F _ Hin).
+Qed.
+
+(* on the classes of shared objects every const container lookup is guarded, primed or compile-time only *)
+Lemma lazy_head_sites_covered : forall e v j, In (e, v, j) constlookup_audit ->
+  v = PerThread \/ v = ConstructionOnly \/ v = InitOnly \/ v = ConfigAPI \/ v = ReadOnly.
+Proof.
+  intros e v j Hin.
+  assert (F : forallb (fun a => match snd (fst a) with PerThread | ConstructionOnly | InitOnly | ConfigAPI | ReadOnly => true | _ => false end) constlookup_audit = true)
     by (vm_compute; reflexivity).
-  apply existsb_exists in F. destruct F as [[[k v] j] [Hin Hb]].
-  change (match v with SharedWrite => existsb (cast_eqb k) census_constcast | _ => false end = true) in Hb.
-  destruct v; try discriminate.
-  apply existsb_exists in Hb. destruct Hb as [k' [Hk' E]].
-  assert (k = k').
-  { destruct k as [[[[a1 a2] a3] a4] a5], k' as [[[[b1 b2] b3] b4] b5]. cbn in E.
-    repeat (apply andb_true_iff in E; destruct E as [E ?]).
-    apply String.eqb_eq in E. repeat match goal with H : String.eqb _ _ = true |- _ => apply String.eqb_eq in H end.
-    match goal with H : Nat.eqb _ _ = true |- _ => apply Nat.eqb_eq in H end. subst. reflexivity. }
-  subst k'. exists k, j. split; assumption.
+  rewrite forallb_forall in F. specialize (F _ Hin). cbn in F. destruct v; try discriminate; tauto.
+Qed.
+
+Lemma lazy_guard_facts :
+  In ("XalanSourceTreeDocument", "m_elementsByID", "Map", "XalanSourceTreeDocument::getElementById const", "end,find", "guarded", "FunctionID::execute;XercesDocumentWrapper::getElementById;getDoc") census_constlookup /\
+  In ("XalanSourceTreeDocument", "m_unparsedEntityURIs", "Map", "XalanSourceTreeDocument::getUnparsedEntityURI const", "end,find", "guarded", "many(5)") census_constlookup.
+Proof.
+  split; unfold census_constlookup; repeat (first [left; reflexivity | right]).
 Qed.
 
 Definition static_justified (e : string * string * string * list (string * string)) : Prop :=
@@ -135,7 +142,7 @@ Lemma facility_state_per_thread : forall f, In (facility_home f) census_owner /\
   ((exists j, In (snd (facility_home f), PerThread, j) class_audit) \/ In (snd (facility_home f)) (map fst extra_perthread_classes)).
 Proof.
   intros f. split.
-  - destruct census_equals_audit_l as [_ [_ [_ [_ E]]]]. rewrite E. apply in_map. destruct f; cbn; tauto.
+  - destruct census_equals_audit_l as [_ [_ [_ [_ [E _]]]]]. rewrite E. apply in_map. destruct f; cbn; tauto.
   - destruct f; cbn; try (left; eexists; tauto); right; tauto.
 Qed.
 
